@@ -88,14 +88,28 @@ def sweep(chk, case, ks, sigs):
 
 # ----------------------------------------------------------------------------- real processes, real signals
 def real_interrupts(chk, n):
+    """real `cond run` processes with sleeping children, interrupted by a real signal.  Shapes: (0) three parallel
+    experiments in flight; (1) a chain -- the signal arrives while the SECOND task runs, i.e. after an earlier task
+    was reaped as Conductor's only child; (2) as (0) with Conductor's stdout being a pipe whose reader has gone away
+    (`cond run ... | head`), unbuffered: writing the abort report fails."""
     rng = chk.rng
     for it in range(n):
-        cond = "\n".join('run_experiment(name="e%d", run="echo $$ > $COND_OUT/pid; sleep 30", parallelizable=True)' % i for i in range(3))
-        cond += '\nrun_command(name="all", run="true", deps=[":e0", ":e1", ":e2"])\n'
+        shape = it % 3
+        if shape == 1:
+            cond = ('run_command(name="first", run="true")\n'
+                    'run_experiment(name="e0", run="echo $$ > $COND_OUT/pid; sleep 30", deps=[":first"])\n'
+                    'run_command(name="all", run="true", deps=[":e0"])\n')
+            nchildren, argv = 1, ["run", "//:all"]
+        else:
+            cond = "\n".join('run_experiment(name="e%d", run="echo $$ > $COND_OUT/pid; sleep 30", parallelizable=True)' % i for i in range(3))
+            cond += '\nrun_command(name="all", run="true", deps=[":e0", ":e1", ":e2"])\n'
+            nchildren, argv = 3, ["run", "//:all", "-j", "3"]
         root = implrun.make_project({"COND": cond})
         env = dict(os.environ, PYTHONPATH=SRC)
-        p = subprocess.Popen([PY, "-m", "conductor", "run", "//:all", "-j", "3"], cwd=root, env=env, stdout=subprocess.PIPE, stderr=subprocess.PIPE)
-        # wait until the three children exist
+        if shape == 2:
+            env["PYTHONUNBUFFERED"] = "1"
+        p = subprocess.Popen([PY, "-m", "conductor"] + argv, cwd=root, env=env, stdout=subprocess.PIPE, stderr=subprocess.PIPE)
+        # wait until the children exist
         deadline = time.time() + 20
         pids = []
         while time.time() < deadline:
@@ -106,17 +120,27 @@ def real_interrupts(chk, n):
                         pids.append(int(open(os.path.join(dp, "pid")).read().strip()))
                     except ValueError:
                         pass
-            if len(pids) == 3:
+            if len(pids) == nchildren:
                 break
             time.sleep(0.05)
         time.sleep(rng.random() * 0.3)
         sig = rng.choice([signal.SIGINT, signal.SIGTERM])
+        if shape == 2:
+            p.stdout.close()      # the reader of Conductor's stdout is gone
         p.send_signal(sig)
         try:
-            out, err = p.communicate(timeout=20)
+            if shape == 2:
+                p.wait(timeout=20)
+                out, err = b"", p.stderr.read()
+            else:
+                out, err = p.communicate(timeout=20)
         except subprocess.TimeoutExpired:
             p.kill()
-            out, err = p.communicate()
+            if shape == 2:
+                p.wait()
+                out, err = b"", b"(timeout)"
+            else:
+                out, err = p.communicate()
         time.sleep(0.3)
         alive = []
         for pid in pids:
@@ -133,20 +157,24 @@ def real_interrupts(chk, n):
                 pass
         rows = implrun.index_rows(root)
         chk.coverage["evaluations"] += 1
-        chk.count("real", signal.Signals(sig).name)
+        chk.count("real", "%s shape %d" % (signal.Signals(sig).name, shape))
         text = (out + err).decode("utf-8", "replace")
         problems = []
-        if len(pids) != 3:
+        if len(pids) != nchildren:
             problems.append("harness: children did not start (%s)" % text[-200:])
         if alive:
             problems.append("task processes %s survived the interrupt" % alive)
-        if rows:
+        if [r for r in rows if "e" in r[0].split(":")[1]]:
             problems.append("versions %s were recorded for interrupted tasks" % rows)
-        if p.returncode in (0, None) or "Traceback" in text or "aborted" not in text:
+        if shape == 2:
+            if p.returncode in (0, None):
+                problems.append("cond exited %s after the interrupt" % p.returncode)
+        elif p.returncode in (0, None) or "Traceback" in text or "aborted" not in text:
             problems.append("cond exited %s with output %r instead of reporting an abort" % (p.returncode, text[-300:]))
+        what = ["three tasks in flight (-j3)", "the second task of a chain running", "three tasks in flight, stdout closed by its reader"][shape]
         for msg in problems:
-            chk.violation("impl-violation", "real %s during cond run -j3: %s" % (signal.Signals(sig).name, msg),
-                          {"input": {"cond": cond, "signal": int(sig)}, "impl_observation": {"exit": p.returncode, "output": text[-1000:], "alive": alive, "rows": rows}},
+            chk.violation("impl-violation", "real %s during cond run, %s: %s" % (signal.Signals(sig).name, what, msg),
+                          {"input": {"cond": cond, "signal": int(sig), "shape": shape}, "impl_observation": {"exit": p.returncode, "output": text[-1000:], "alive": alive, "rows": rows}},
                           match_key={"point": "real-signal"}, size=3)
         if not problems:
             chk.coverage["traces_validated_against_impl"] += 1
@@ -208,7 +236,7 @@ def run(tier, seed, replay=None):
                             "fixed graphs (parallel fan-in, chain, combine/group mix with --again, --stop-early with a failing task, cached experiment) under the fake process "
                             "layer; quick: a stride plus random sample of k, thorough: every k; plus the end of Popen() (known finding D7') and real interrupted `cond run -j3` "
                             "processes with sleeping children; distinct_nontrivial = distinct (file, function, line) program points at which a signal was injected" % len(cases))
-    real_interrupts(chk, 2 if tier == "quick" else 12)
+    real_interrupts(chk, 3 if tier == "quick" else 18)
     if tier == "thorough":
         chk.run_coqchk()
     return chk.finish()
